@@ -7,7 +7,10 @@ EXTENDS ConnServe, Json
 BoolSet == {TRUE, FALSE}
 
 MkReq(v, c, k, h) == [ver |-> v, conn |-> c, kind |-> k, hclose |-> h]
-MkCfg(dk, mr, rmu, vs, kh) == [dk |-> dk, maxReqs |-> mr, rmu |-> rmu, viaServe |-> vs, keepHij |-> kh, perIP |-> FALSE, busy |-> FALSE, tls |-> FALSE]
+MkCfg(dk, mr, rmu, vs, kh) == [dk |-> dk, maxReqs |-> mr, rmu |-> rmu, viaServe |-> vs, keepHij |-> kh, perIP |-> FALSE, busy |-> FALSE, tls |-> FALSE, nonorm |-> FALSE]
+\* nonorm: Server.DisableHeaderNamesNormalizing, and the client spells its header NAMES in another
+\* case (field names are case-insensitive: the design does not look at the spelling at all)
+WithNoNorm(c) == [c EXCEPT !.nonorm = TRUE]
 \* perIP: MaxConnsPerIP is set and the client has an IPv4 address: the server wraps the connection in its
 \* per-IP accounting connection, which must be invisible to everything modelled here
 WithPerIP(c) == [c EXCEPT !.perIP = TRUE]
@@ -19,14 +22,16 @@ ReqsC10 == { MkReq(v, c, "ok", h) : v \in {"1.1", "1.0"}, c \in AllConn, h \in B
            \cup { MkReq(v, c, "timeout", FALSE) : v \in {"1.1", "1.0"}, c \in {"none", "close", "keep-alive"} }
            \cup { MkReq("1.1", "none", "unread", FALSE), MkReq("1.1", "none", "bigunread", FALSE),
                   MkReq("1.0", "keep-alive", "bigunread", FALSE) }
-CfgsC10 == { MkCfg(dk, mr, rmu, TRUE, FALSE) : dk \in BoolSet, mr \in {0, 1, 2}, rmu \in BoolSet }
+CfgsC10base == { MkCfg(dk, mr, rmu, TRUE, FALSE) : dk \in BoolSet, mr \in {0, 1, 2}, rmu \in BoolSet }
+CfgsC10 == CfgsC10base \cup { WithNoNorm(MkCfg(FALSE, mr, rmu, TRUE, FALSE)) : mr \in {0, 2}, rmu \in BoolSet }
 CfgsC10q == { MkCfg(dk, mr, rmu, TRUE, FALSE) : dk \in {FALSE}, mr \in {0, 2}, rmu \in BoolSet }
+            \cup { WithNoNorm(MkCfg(FALSE, 0, rmu, TRUE, FALSE)) : rmu \in BoolSet }
 
 \* --- C14: ConnState.  requests that exercise every edge of the state machine
 ReqsC14 == { MkReq("1.1", "none", "ok", FALSE), MkReq("1.1", "close", "ok", FALSE),
              MkReq("1.0", "none", "ok", FALSE), MkReq("1.1", "none", "bad", FALSE),
              MkReq("1.1", "none", "hijack", FALSE), MkReq("1.1", "none", "ok", TRUE),
-             MkReq("1.1", "none", "partial", FALSE) }
+             MkReq("1.1", "none", "partial", FALSE), MkReq("1.1", "none", "hijackfail", FALSE) }
 CfgsC14base == { MkCfg(FALSE, mr, rmu, vs, FALSE) : mr \in {0, 2}, rmu \in BoolSet, vs \in BoolSet }
 \* busy: the server's Concurrency is exhausted by another connection when this one arrives
 CfgsC14 == CfgsC14base \cup { WithPerIP(c) : c \in CfgsC14base }
@@ -39,7 +44,8 @@ ReqsC17 == { MkReq("1.1", "none", "ok", FALSE), MkReq("1.1", "none", "hijack", F
              MkReq("1.1", "none", "hijacknr", FALSE), MkReq("1.1", "close", "hijack", FALSE),
              MkReq("1.1", "Upgrade", "hijack", FALSE), MkReq("1.0", "none", "hijack", FALSE),
              MkReq("1.1", "none", "hijack", TRUE), MkReq("1.1", "none", "nrflag", FALSE),
-             MkReq("1.1", "none", "hijackbody", FALSE), MkReq("1.1", "none", "hijackdl", FALSE) }
+             MkReq("1.1", "none", "hijackbody", FALSE), MkReq("1.1", "none", "hijackdl", FALSE),
+             MkReq("1.1", "none", "hijackfail", FALSE) }
 CfgsC17 == { MkCfg(dk, 0, rmu, vs, kh) : dk \in BoolSet, rmu \in BoolSet, vs \in BoolSet, kh \in BoolSet }
 
 Obs == [ cfg |-> cfg, batches |-> batches, clientClosed |-> cliClosed, clientStalled |-> cliStalled, states |-> states,
